@@ -413,6 +413,19 @@ func init() {
 		},
 		"(*sync.Pool).Put": func(ex *Exec, _ *frame, _ *ssa.Function, a []Value) (Value, bool) {
 			p := a[0].(*Value)
+			// an object handed back while it is still in the pool would later be
+			// given to two users at once: a misuse no sequential run shows
+			if in, ok := a[1].(iface); ok {
+				if ptr, ok := in.v.(*Value); ok && ptr != nil {
+					for _, o := range ex.pool[p] {
+						if oi, ok := o.(iface); ok {
+							if op, ok := oi.v.(*Value); ok && op == ptr {
+								ex.fail("pool", "sync.Pool: object put back while it is already in the pool", "two later Gets (for instance from two goroutines) would receive the same object")
+							}
+						}
+					}
+				}
+			}
 			ex.pool[p] = append(ex.pool[p], a[1])
 			return nil, true
 		},
